@@ -506,7 +506,10 @@ func (n *Node) stSetHardState(hs *pb.HardState) {
 	n.simple("sths", "hs="+enc.HardState(hs), func() error { return n.st.SetHardState(hs) })
 }
 func (n *Node) stApplySnapshot(s *pb.Snapshot) {
-	n.simple("stsnap", "snap="+enc.Snapshot(s), func() error { return n.st.ApplySnapshot(s) })
+	out, _ := n.simple("stsnap", "snap="+enc.Snapshot(s), func() error { return n.st.ApplySnapshot(s) })
+	if strings.Contains(out, "res=ok") {
+		n.cl.mon.onStorageSnapshot(n, s)
+	}
 }
 func (n *Node) stCreateSnapshot(i uint64, cs *pb.ConfState, data []byte) {
 	c := "_"
